@@ -12,12 +12,12 @@ from ..own import Ownership
 from ..symx import Expander
 from ..anf import R
 from .. import anf
-from .common import struct_ob, formula_ob, guard, last_return, U
+from .common import dtype_hazard_obligations, struct_ob, formula_ob, guard, last_return, U
 from ..report import AnalysisError
 from ..term import Resolver, pmatch, abstract, anf_of
 
 REL = "inference/pdf/hdi.py"
-FLOORS = {"ownership": 1, "window-offset": 3, "axis-discipline": 5, "endpoints-are-samples": 1}
+FLOORS = {"float-arithmetic": 1, "ownership": 1, "window-offset": 3, "axis-discipline": 5, "endpoints-are-samples": 1}
 
 
 def run(prog, tier):
@@ -154,6 +154,8 @@ def run(prog, tier):
                          "both end points must be sample values selected by index (no arithmetic on the values), which is what "
                          "makes the result covariant under positive affine maps", REL, fn.lineno,
                          slots={"stores": [U(s) for s in stores]}))
+
+    obs.extend(dtype_hazard_obligations(prog, "float-arithmetic", ['inference/pdf/hdi.py']))
 
     meta = {
         "explanation": "Ownership analysis of sample_hdi (copy before resize/sort; a removed copy is reported), normal-form "
